@@ -506,6 +506,28 @@ theorem elabField_meaning' (O : Oracles) (future : Bool) (fs : FieldSp)
           · exact absurd hok ht
           · exact hok
         simp [ht, tryDefault_of_ok hok', annField, isFieldObj, getItem, finishField, eqResult_scalar _ _ hsc]
+    | eqF p n =>
+      simp only [Bool.and_eq_true, Bool.not_eq_true'] at hd
+      have hon := hd.2
+      simp only [onceSp, hev] at hon
+      simp only [evTop, hev, bindE_ok, annField, fieldMeaning, DefaultSp.value, effOptional]
+      have htag : ∀ opt, eqResult (denote ty) opt factoryTag = .field (denote ty) false (some factoryTag) :=
+        fun _ => rfl
+      by_cases hf : isFieldObj o = true
+      · simp [hf, hgi, finishField, htag]
+      · have hf' : isFieldObj o = false := by simpa using hf
+        have hsel : (gtliGivesClass ptm o && truthy p) = false := by simpa [hf'] using hon
+        simp [hf, g.gt, afterGtli, finishField, htag, hsel]
+    | kwF p n =>
+      have hkw : kwAllowed ty = true := hd
+      have ho := g.ki hkw
+      subst ho
+      simp only [evTop, hev, bindE_ok, hkw, fieldMeaning, DefaultSp.value, applyKwF]
+      have htag : ∀ opt, eqResult (denote ty) opt factoryTag = .field (denote ty) false (some factoryTag) :=
+        fun _ => rfl
+      cases htd : tryDefault O (denote ty) p with
+      | error e => simp
+      | ok u => simp [annField, isFieldObj, getItem, finishField, htag]
   | assign =>
     simp only [elabField]
     have hf : isFieldObj o = true := by rw [g.fo]; exact hm
@@ -537,6 +559,17 @@ theorem elabField_meaning' (O : Oracles) (future : Bool) (fs : FieldSp)
           · exact absurd hok ht
           · exact hok
         simp [ht, tryDefault_of_ok hok', assignField, finishFieldNoCheck, eqResult_scalar _ _ hsc]
+    | eqF p n => simp at hd
+    | kwF p n =>
+      have hkw : kwAllowed ty = true := hd
+      have ho := g.ki hkw
+      subst ho
+      simp only [evTop, hev, bindE_ok, hkw, fieldMeaning, DefaultSp.value, applyKwF]
+      have htag : ∀ opt, eqResult (denote ty) opt factoryTag = .field (denote ty) false (some factoryTag) :=
+        fun _ => rfl
+      cases htd : tryDefault O (denote ty) p with
+      | error e => simp
+      | ok u => simp [assignField, finishFieldNoCheck, htag]
 
 theorem fieldMeaning_same (O : Oracles) {a b : FieldSp} (h : FieldSame a b) : fieldMeaning O a = fieldMeaning O b := by
   simp [fieldMeaning, h.dflt, h.opt, sameMeaning_denote h.ty]
